@@ -131,7 +131,9 @@ func VH_C09_SharedReads() {
 	sol := NewSolar(Y, 2, 10, 23, 30, 0)
 	l := sol.GetLunar()
 	vhRO_Solar(sol)
+	vhRO_Solar(NewSolar(Y, 6, 15, 8, 30, 15)) // a mid-morning receiver as well: hour / day steps that stay inside the day
 	vhRO_Lunar(l)
+	vhRO_Lunar(NewSolar(Y, 6, 15, 8, 30, 15).GetLunar())
 	vhRO_EightChar(l.GetEightChar())
 	vhRO_LunarTime(l.GetTime())
 	vhRO_Tao(l.GetTao())
